@@ -106,6 +106,7 @@ type zzNode struct {
 type zzSpec struct {
 	root       interface{}
 	calls      []zzCall // user-function call log (outside filters)
+	fcalls     []zzCall // calls made while evaluating filter operands
 	fnFailed   bool     // some user function returned an error
 	failedFns  []string
 	inFilter   int
@@ -292,6 +293,8 @@ func (sp *zzSpec) applyStep(step *zzN, in []zzNode) []zzNode {
 		for _, n := range in {
 			if sp.inFilter == 0 {
 				sp.calls = append(sp.calls, zzCall{fn: name, args: []interface{}{n.v}})
+			} else {
+				sp.fcalls = append(sp.fcalls, zzCall{fn: name, args: []interface{}{n.v}})
 			}
 			fails := name == "fail"
 			if name == "failnum" {
@@ -321,6 +324,8 @@ func (sp *zzSpec) applyStep(step *zzN, in []zzNode) []zzNode {
 		}
 		if sp.inFilter == 0 {
 			sp.calls = append(sp.calls, zzCall{fn: name, args: vals, agg: true})
+		} else {
+			sp.fcalls = append(sp.fcalls, zzCall{fn: name, args: vals, agg: true})
 		}
 		if name == "aggfail" {
 			sp.fnFailed = true
